@@ -195,6 +195,12 @@ bool vf_configure(Ctx &c) {
 static const char *tname(int t) { static const char *n[] = {"qurl_decode", "qbase64_decode", "qhex_decode", "qparse_queries", "qconfig_parse_str", "qconfig_parse_file", "qaconf_parse"}; return n[t]; }
 
 void run_case(Src &s, Ctx &c) {
+    if (const char *rt = getenv("VF_RAW_TARGET")) {
+        // the file IS the input text of that target (used for hand-written / recorded inputs, e.g. findings/)
+        int tgt = atoi(rt); std::string text = s.rest(); text = text.c_str();
+        c.op("%s(cfg=0, %s) [raw input]", tname(tgt), hexs(text, 200).c_str());
+        run_target(tgt, text, 0, s, c); c.tag(tname(tgt)); c.nontrivial = malformed(tgt, text); return;
+    }
     int tgt = g_fixed_target >= 0 ? g_fixed_target : (int)s.pick({2, 1, 2, 2, 4, 2, 5});
     unsigned cfg = s.u8();            // separators / parser flags / default handler
     std::string text = gen_text(s, tgt);
